@@ -285,7 +285,7 @@ def term_of(x, want_real=False):
   else:
     raise TypeError('no term for %r' % type(x))
   if want_real and t.sort() == z3.IntSort():
-    t = z3.ToReal(t)
+    t = z3.RealVal(t.as_long()) if z3.is_int_value(t) else z3.ToReal(t)
   return t
 
 
@@ -293,9 +293,9 @@ def _coerce(a, b):
   if a.sort() == b.sort():
     return a, b
   if a.sort() == z3.IntSort():
-    a = z3.ToReal(a)
+    a = z3.RealVal(a.as_long()) if z3.is_int_value(a) else z3.ToReal(a)
   if b.sort() == z3.IntSort():
-    b = z3.ToReal(b)
+    b = z3.RealVal(b.as_long()) if z3.is_int_value(b) else z3.ToReal(b)
   return a, b
 
 
